@@ -569,6 +569,7 @@ def run_check(rep, prop, tier, seed, gen_cases, rule, meta_expl, theorems_note):
     items = corpus + items
     tag = prop.lower()
     outl, bad, errors = correspond(binpath, items, tag)
+    rep.extra["build_profiles"] = F.profile_phase(rep, "c0405", items, outl, profiles=("release",)) if not errors and len(outl) == len(items) else {}
     for name, msg in errors:
         rep.violation("correspondence_error_" + name.replace("/", "_"), {"kind": "correspondence could not be evaluated", "where": name, "log": msg}, no_input=True)
     hist = {}
